@@ -593,8 +593,8 @@ func TestVerifC08Replay(t *testing.T) {
 			return
 		}
 		n := perHist
-		if c08Deviant(&h) || n > len(concs) {
-			n = len(concs) // counter-examples of the deviating models: every concretisation
+		if (c08Deviant(&h) && !strings.HasSuffix(h.Src, "_2p")) || n > len(concs) {
+			n = len(concs) // counter-examples of the deviating models (one-block sets): every concretisation
 		}
 		for k := 0; k < n; k++ {
 			c := concs[(j.idx*perHist+k)%len(concs)]
